@@ -510,8 +510,78 @@ def after_other_transfer(n, m):
     sx.reach("after-other")
 
 
+def shared_dictionary(when):
+    """several local nodes may be built from one ObjectDictionary object (a family of identical devices): what is
+    downloaded to one of them is that node's value; another node - existing already or created afterwards - still
+    serves the dictionary's default / parameter value"""
+    od = sdo_od()
+    d = sx.fresh_int("d", 0, 0xFFFFFFFF)
+    od[0x2013].default = d
+    od[0x2030][1].default = 0x0102
+    ra = ServerRig(od, 2)
+    rb = ServerRig(od, 3) if when == "before" else None
+    ca = RefClient(ra.deliver, "C02")
+    v = sx.fresh_int("v", 0, 0xFFFFFFFF)
+    r = ca.download(0x2013, 0, le32(v), "exp-size")
+    r2 = ca.download(0x2030, 1, [0x55, 0x66], "exp-size")
+    sx.prove(r is None and r2 is None, "download refused", "C02/shared-od/prepare")
+    if rb is None:
+        rb = ServerRig(od, 3)
+    cb = RefClient(rb.deliver, "C02")
+    tag = "C02/shared-od/%s" % when
+    for idx, sub, exp in ((0x2013, 0, le32(d)), (0x2030, 1, [0x02, 0x01])):
+        res = cb.upload(idx, sub)
+        ok = res is not None and not isinstance(res, Abort)
+        sx.prove(ok, "upload from the other node refused", tag + "/refused")
+        if ok:
+            sx.prove(len(res[0]) == len(exp) and sx.eq_bytes(sx.mkbytes(res[0]), sx.mkbytes(exp)) is not False,
+                     "the other node serves what was downloaded to its sibling", tag + "/value")
+            if len(res[0]) == len(exp):
+                sx.prove(sx.eq_bytes(sx.mkbytes(res[0]), sx.mkbytes(exp)), "the other node's value", tag + "/bytes")
+    res = ca.upload(0x2013, 0)
+    if res is not None and not isinstance(res, Abort) and len(res[0]) == 4:
+        sx.prove(sx.eq_bytes(sx.mkbytes(res[0]), sx.mkbytes(le32(v))), "the written node serves its own value", tag + "/own")
+    sx.reach("shared-od")
+
+
+def download_history(n, m, modes):
+    """every download stands for itself: what one transfer announced (a size, or none) has no bearing on the next -
+    two downloads in a row (same or another entry, either order of sized / unsized, shorter and longer), each stored
+    and uploaded exactly"""
+    rig = ServerRig(sdo_od())
+    cli = RefClient(rig.deliver, "C02")
+    seen = []
+    rig.node.add_write_callback(lambda index, subindex, od, data: seen.append((index, sx.mkbytes(list(sx.items(data))))))
+    a, b = sx.fresh_bytes("a", n), sx.fresh_bytes("b", m)
+    second_idx = 0x2000 if sx.choice(2, "same") else 0x2001
+    tag = "C02/download-history/%s" % modes
+    for k, (idx, val, mode) in enumerate(((0x2000, a, modes.split("+")[0]), (second_idx, b, modes.split("+")[1]))):
+        r = cli.download(idx, 0, sx.items(val), mode)
+        sx.prove(r is None, "download refused", tag + "/refused")
+        if r is not None:
+            return
+        st = rig.node.data_store[idx][0]
+        sx.prove(len(sx.items(st)) == len(sx.items(val)) and sx.eq_bytes(st, val) is not False, "stored length", tag + "/stored-length")
+        if len(sx.items(st)) == len(sx.items(val)):
+            sx.prove(sx.eq_bytes(st, val), "stored bytes", tag + "/stored")
+        sx.prove(len(seen) == k + 1 and sx.eq_bytes(seen[-1][1], val) is not False, "write callback saw the payload",
+                 tag + "/callback")
+        res = cli.upload(idx, 0)
+        ok = res is not None and not isinstance(res, Abort)
+        sx.prove(ok and len(res[0]) == len(sx.items(val)) and sx.eq_bytes(sx.mkbytes(res[0]), val) is not False,
+                 "upload after the download", tag + "/upload-length")
+        if ok and len(res[0]) == len(sx.items(val)):
+            sx.prove(sx.eq_bytes(sx.mkbytes(res[0]), val), "uploaded bytes", tag + "/upload")
+    sx.reach("download-history")
+
+
 def jobs(tier):
     out = []
+    for when in ("before", "after"):
+        out.append(dict(func="shared_dictionary", params=dict(when=when)))
+    for n, m in ((6, 13), (13, 6), (9, 9), (20, 5), (5, 20)):
+        for modes in ("seg-size+seg-nosize", "seg-nosize+seg-size", "seg-size+seg-size", "seg-nosize+seg-nosize"):
+            out.append(dict(func="download_history", params=dict(n=n, m=m, modes=modes)))
     for n, m in ((11, 9), (8, 15), (5, 22), (15, 15)):
         out.append(dict(func="two_servers", params=dict(n=n, m=m)))
     for order in ("mo", "om", "omo", "oom"):
@@ -596,7 +666,7 @@ META = dict(
                     "more than 3 arbitrary frames in a row (covered by the step under the stated invariant)"],
     assumptions=["reference client written from CiA 301 7.2.4.3"],
     stubs=["struct", "bytes/bytearray", "dict displays -> SymDict", "logging", "Network.send_message replaced on the instance"],
-    required_reach=["two-servers", "two-callbacks", "upload-callback", "upload-store", "upload-value", "upload-default", "upload-empty",
+    required_reach=["download-history", "shared-od", "two-servers", "two-callbacks", "upload-callback", "upload-store", "upload-value", "upload-default", "upload-empty",
                     "upload-segmented", "download-exp-size", "download-exp-nosize", "download-seg-size",
                     "download-seg-nosize", "robust-step", "abort-request", "robust-history", "interleaved", "after-other", "local-read", "stray", "upload-interrupts", "two-members"],
     limits=dict(quick=dict(max_decisions=20000), thorough=dict(max_decisions=20000, job_timeout_s=3000)),
